@@ -1,5 +1,5 @@
 (* C01 — formatting preserves the syntax tree. Statements, `exact` proofs, pins, assumption reports. *)
-From TV Require Import Conv Format Render RenderProofs SeqProofs ConvProofs ParenProofs MarkupProofs MathProofs Post FlowProofs ListProofs.
+From TV Require Import Conv Format Render RenderProofs SeqProofs ConvProofs ParenProofs MarkupProofs MathProofs Post FlowProofs ListProofs ChainProofs.
 
 (* The full property mentions re-parsing; the parser is outside the model (DESIGN.md section 3), so the
    full statement is given over an abstract parser and an abstract skeleton. It is NOT proved: what is
@@ -124,3 +124,15 @@ Theorem C01_chain_builder_attaches_after_a_body :
 Proof. intros swidth S c nodes s0 pred opc rhs fb n ch n' H. exact (chain_process_attached_ok swidth c nodes s0 pred opc rhs fb n ch n' H). Qed.
 Print Assumptions C01_chain_printer_conserves.
 Print Assumptions C01_chain_builder_attaches_after_a_body.
+
+(* builder and printer of the chain stylist together: the atoms of a dot chain's or binary chain's document are the
+   atoms of what the collecting loop obtained -- operators, right-hand sides, comments, and the conversions of the
+   non-operand nodes, glued to the preceding body -- per node of the resolved chain and per child, in order *)
+Theorem C01_chain_stylist_conserves :
+  forall swidth tab S c nodes (s0 : S) pred opc rhs fb n ch n' csty d x,
+    chain_process swidth c nodes s0 pred opc rhs fb n = Ok (ch, n') ->
+    chain_print_doc swidth tab ch csty = Ok d -> seqs d x ->
+    exists pss xs, Forall2 (outer_push_for swidth pred opc rhs fb) nodes pss /\
+                   Forall2 seqs (flat_map cpush_docs (concat pss)) xs /\ kept sty0 x = kept sty0 (concat xs).
+Proof. intros. eapply chain_conserves; eassumption. Qed.
+Print Assumptions C01_chain_stylist_conserves.
